@@ -260,6 +260,35 @@ func connScenarios() []scenario {
 				}
 				return ""
 			}})
+		// two writers against CloseWrite: CloseWrite is the orderly end of the outgoing stream, so every
+		// Write that reports success has been sent BEFORE close_notify and the peer reads it before EOF; a
+		// Write that lost the race returns an error and contributes nothing
+		out = append(out, scenario{name: fmt.Sprintf("one-conn-write-write-closewrite/%04x", suite), bound: 2, boundT: 3,
+			setup: func() interface{} { return establish(suite, "") },
+			threads: []func(interface{}) interface{}{
+				wr("AAAAA"),
+				wr("BBBBB"),
+				func(st interface{}) interface{} { return fmt.Sprint(st.(*established).cl.CloseWrite()) },
+			},
+			accept: func(st interface{}, res []interface{}) string {
+				got, rerr := st.(*established).drain()
+				want := map[string]bool{}
+				a, b := fmt.Sprint(res[0]) == "5 <nil>", fmt.Sprint(res[1]) == "5 <nil>"
+				switch {
+				case a && b:
+					want["AAAAABBBBB"], want["BBBBBAAAAA"] = true, true
+				case a:
+					want["AAAAA"] = true
+				case b:
+					want["BBBBB"] = true
+				default:
+					want[""] = true
+				}
+				if !want[got] {
+					return fmt.Sprintf("Write results %v / %v, CloseWrite %v, but the peer read %q up to %v: no order of the three calls gives that", res[0], res[1], res[2], got, rerr)
+				}
+				return ""
+			}})
 		// two readers, one Read call each: the bytes are handed out in stream order without loss or duplication
 		out = append(out, scenario{name: fmt.Sprintf("one-conn-read-read/%04x", suite), bound: 2, boundT: 3,
 			setup:   func() interface{} { return establish(suite, "0123456789") },
